@@ -267,6 +267,71 @@ def rule_g(R, ctx, rid="C03.g"):
     R.floor(rid, "arithmetic uses of BlockIter.rel", n, 5)
 
 
+def rule_h(R, ctx, rid="C03.h"):
+    Y = ctx.yrs
+    R.rule(rid, "R-ORDER the cursor is written back before the walk is delegated: BlockIter methods that advance a local copy of "
+                "`self.next_item` (BlockIter::delete) store it back to the field on every path from an assignment of that local to a "
+                "call of another BlockIter method on `self` (try_forward / forward / backward / split_rel), which reads the field — "
+                "otherwise the delegated step starts from a stale position and the remaining length is applied to other elements")
+    n = 0
+    for p, fn in sorted(Y.fns.items()):
+        if not p.startswith("yrs::block_iter::BlockIter::") or not fn.mir:
+            continue
+        # local copies of the cursor: locals of type Option<ItemPtr> with >= 2 definitions, one of which reads self.next_item
+        copies = []
+        for l, ds in fn.defs().items():
+            if not isinstance(l, int) or len(ds) < 2 or not str(fn.local_ty(l)).startswith("std::option::Option<yrs::block::ItemPtr"):
+                continue
+            for d in ds:
+                if d[0] == "stmt" and isinstance(d[3]["rv"].get("use"), dict):
+                    pl = d[3]["rv"]["use"].get("c", d[3]["rv"]["use"].get("m"))
+                    if isinstance(pl, dict) and any(isinstance(x, str) and x.endswith("BlockIter.next_item") for x in pl.get("p", [])):
+                        copies.append(l)
+        if not copies:
+            continue
+        writes = {}
+        for i, j, st in fn.field_writes("BlockIter.next_item"):
+            r = mir_root(fn, st["rv"]["use"]) if "use" in st["rv"] else None
+            writes.setdefault(i, []).append(r)
+        for cs in fn.calls():
+            nm = F.strip_generics(cs.name)
+            if not re.search(r"BlockIter::(try_forward|forward|backward|split_rel|try_backward)$", nm):
+                continue
+            if not (cs.args and simp_deep(FnView(fn).arg(cs, 0))[0] == "param"):
+                continue
+            for l in copies:
+                n += 1
+                wb = {b for b, rs in writes.items() if ("local", l) in rs}
+                bad = None
+                for d in fn.defs()[l]:
+                    start = d[1]
+                    if start in wb and start != cs.bb:
+                        continue
+                    if cs.bb in wb:
+                        continue  # written back in the block of the call itself
+                    seen = {start}
+                    st_ = [start]
+                    hit = start == cs.bb
+                    while st_ and not hit:
+                        b = st_.pop()
+                        for nx in fn.succ(b):
+                            if nx in seen or fn.blocks[nx].get("cleanup") or nx in wb:
+                                continue
+                            if nx == cs.bb:
+                                hit = True
+                                break
+                            seen.add(nx)
+                            st_.append(nx)
+                    if hit:
+                        bad = d[3]["line"] if d[0] == "stmt" else None
+                        break
+                R.ob(rid, fn, "%s:%s" % (nm.rsplit("::", 1)[-1], fn.local_name(l) or "_%d" % l), bad is None,
+                     "self.next_item is written back from `%s` on every path into this call" % (fn.local_name(l) or l) if bad is None else
+                     "a path from the assignment of `%s` at line %s reaches %s without storing it to self.next_item" % (fn.local_name(l), bad, nm.rsplit("::", 1)[-1]),
+                     cs.loc())
+    R.floor(rid, "delegations from a BlockIter method that holds a local cursor", n, 1)
+
+
 def check(ctx, R):
     R.run("C03.a", rule_a, ctx)
     R.run("C03.b", rule_b, ctx)
@@ -276,6 +341,7 @@ def check(ctx, R):
     R.run("C03.e", c17.rule_c, ctx, "C03.e")
     R.run("C03.f", c17.rule_d, ctx, "C03.f")
     R.run("C03.g", rule_g, ctx)
+    R.run("C03.h", rule_h, ctx)
     from . import preds
     R.run("C03.p", lambda R, c: preds.rule(R, c, "C03.p", ["adjacent_left", "adjacent_right", "item_contains", "slice_contains_id"]), ctx)
     return {}
